@@ -390,9 +390,10 @@ def _jacobian_fd(fn, q, p, dim, h=1e-6):
     return Jm
 
 
-def prob_symplectic_flows(mk, kind, dim, mkind):
-    """Each component flow with a symbolic time is a symplectic map."""
-    sysm, info = sl.make_system(S, M, mk, kind, dim, mkind=mkind)
+def prob_symplectic_flows(mk, kind, dim, mkind, uf=False):
+    """Each component flow with a symbolic time is a symplectic map (uf=True: uninterpreted gradient with an uninterpreted
+    symmetric Hessian, i.e. any smooth target)."""
+    sysm, info = sl.make_system(S, M, mk, kind, dim, mkind=mkind, uf=uf)
     q, p = mk.arr("q", dim), mk.arr("p", dim)
     t = mk.real("t1")
     items = []
@@ -406,9 +407,9 @@ def prob_symplectic_flows(mk, kind, dim, mkind):
     return items
 
 
-def prob_symplectic_step(mk, ikind, kind, dim, mkind, n=1):
+def prob_symplectic_step(mk, ikind, kind, dim, mkind, n=1, uf=False):
     """End-to-end: n integrator steps preserve the canonical form (kept where the query discharges)."""
-    sysm, info = sl.make_system(S, M, mk, kind, dim, mkind=mkind)
+    sysm, info = sl.make_system(S, M, mk, kind, dim, mkind=mkind, uf=uf)
     eps = mk.pos("eps")
     integ = make_integrator(mk, ikind, sysm, eps)
     q, p = mk.arr("q", dim), mk.arr("p", dim)
